@@ -65,6 +65,40 @@ func init() {
 			}
 		},
 		Check: func(w *schedWorld) { schedCheckExport(w, "s2") }}
+	// s2w: the observer's Established transition (initial table transfer) concurrent with the
+	// WITHDRAWAL of a route that is already in the table: the withdrawal must not be overtaken by
+	// the transfer's older snapshot
+	schedScenarios["c01.s2w"] = &schedScenario{Name: "c01.s2w",
+		Setup: func(w *schedWorld) []schedThread {
+			c01SchedBots(w, 3)
+			w.establish(w.bots[0])
+			w.establish(w.bots[1])
+			w.receive(w.bots[1], ann(w, 1, 1, 0))
+			w.receive(w.bots[0], ann(w, 0, 0, 0))
+			w.prepare(w.bots[2])
+			w.settleSetup()
+			return []schedThread{
+				{"fsm-e2-established", func() { w.stateChange(w.bots[2], bgp.BGP_FSM_ESTABLISHED, fsmOpenMsgNegotiated) }},
+				{"recv-e0-wd", func() { w.receive(w.bots[0], wd(w, 0, 0)) }},
+			}
+		},
+		Check: func(w *schedWorld) { schedCheckExport(w, "s2w") }}
+	// s4w: soft reset out / route refresh concurrent with a withdrawal
+	schedScenarios["c01.s4w"] = &schedScenario{Name: "c01.s4w",
+		Setup: func(w *schedWorld) []schedThread {
+			c01SchedBots(w, 3)
+			for _, b := range w.bots {
+				w.establish(b)
+			}
+			w.receive(w.bots[0], ann(w, 0, 0, 0))
+			w.receive(w.bots[1], ann(w, 1, 1, 0))
+			w.settleSetup()
+			return []schedThread{
+				{"recv-e2-routerefresh", func() { w.receive(w.bots[2], bgp.NewBGPRouteRefreshMessage(1, 0, 1)) }},
+				{"recv-e0-wd", func() { w.receive(w.bots[0], wd(w, 0, 0)) }},
+			}
+		},
+		Check: func(w *schedWorld) { schedCheckExport(w, "s4w") }}
 	// s3: peer-down of the best path's source concurrent with a replacement announcement
 	schedScenarios["c01.s3"] = &schedScenario{Name: "c01.s3",
 		Setup: func(w *schedWorld) []schedThread {
@@ -116,9 +150,9 @@ func TestVerif_C01_Sched(t *testing.T) {
 	if vr.Thorough() {
 		bound, budget = 2, 10*time.Minute
 	}
-	names := []string{"c01.s1", "c01.s2", "c01.s3"}
+	names := []string{"c01.s1", "c01.s2", "c01.s2w", "c01.s4w"}
 	if vr.Thorough() {
-		names = []string{"c01.s1", "c01.s1w", "c01.s2", "c01.s3", "c01.s4"}
+		names = []string{"c01.s1", "c01.s1w", "c01.s2", "c01.s2w", "c01.s3", "c01.s4", "c01.s4w"}
 	}
 	for _, name := range names {
 		schedExploreSharded(t, r, name, bound, 1, budget)
